@@ -16,6 +16,7 @@ EXPLANATION = (
     "Not decided: the hex crate's behaviour (lower-case output, mixed-case input)."
 )
 TRUSTED = ["hex 0.4: encode() is lower-case, 2 digits per byte; <[u8;32] as FromHex>::from_hex accepts exactly 64 hex digits (either case)"]
+WITNESSES = ['W4']  # compile-fail witnesses run in the thorough tier (witness/src/lib.rs)
 ASSUMPTIONS = []
 
 
